@@ -135,7 +135,11 @@ def _schema_constrains_root(ctx: Ctx, mm, order, vi, vcall, vfn):
         return {"kind": "other", "strs": strs_of(node, fn)}
 
     def const(node):
-        return node.value if isinstance(node, ast.Constant) else "<expr>"
+        if isinstance(node, ast.Constant):
+            return node.value
+        if isinstance(node, ast.Name) and node.id in mod_consts:
+            return mod_consts[node.id]          # a hoisted module-level string constant
+        return "<expr>"
 
     for i_, st, c, fn in order:
         if i_ > vi:
